@@ -2,6 +2,10 @@
 base strings, known-finding signatures (predicates over a failing case)."""
 
 KIND_NAMES = {
+    701: 'C07/accept_paths: metainfo.NewInfo file paths vs Paths.accept_paths',
+    702: 'C07/open_path: FileStorage.Open path vs Paths.open_path',
+    703: 'C07/tar: torrent.readData vs Paths.tar_target',
+    704: 'C07/strfuncs: cleanName, TrimSpace, filepath.Clean, path.Ext vs Paths',
     601: 'C06/accept: metainfo.NewInfo vs Meta.accept',
     201: 'C02/new_pieces: metainfo.NewInfo+piece.NewPieces vs Geometry.new_pieces',
     202: 'C02/calc_blocks: piece.calculateBlocks vs Geometry.calc_blocks',
@@ -21,6 +25,11 @@ TRUSTED_COMMON = [
 ]
 
 PROPS = {
+    'C07': {
+        'kinds': {701: {'quick': 3000, 'thorough': 60000}, 702: {'quick': 1500, 'thorough': 20000}, 703: {'quick': 800, 'thorough': 10000}, 704: {'quick': 3000, 'thorough': 60000}},
+        'trusted': ['path/filepath, unicode/utf8, strings.TrimSpace, path.Ext beyond sampled agreement with the component-level model', 'the kernel resolves a ..-free, symlink-free relative path below the directory it is joined to'],
+        'assumptions': ['data directory is absolute and contains no symlinks planted by a third party'],
+    },
     'C06': {
         'kinds': {601: {'quick': 4000, 'thorough': 100000}},
         'trusted': ['zeebo/bencode decodes the generated dictionaries into the struct fields the model starts from'],
